@@ -377,7 +377,7 @@ def units(tier, seed):
     for em in (1, 2, 3):
         us.append({'harness': 'efficiency', 'kind': 'direct-use', 'em': em, 'L': 2})
     for kind in (['electricity', 'direct-use', 'cogen-topping'] if tier == 'quick' else KINDS[tier]):
-        for em in ((2,) if tier == 'quick' else (1, 2, 3)):
+        for em in ((2, 3) if tier == 'quick' else (1, 2, 3)):
             c = cfg_of(kind, em, 'quick')
             c['harness'] = 'addon'
             us.append(c)
